@@ -28,6 +28,8 @@
                                  also the synchronous polarized mode
      C04_prints_admitted_core    the same with init_linear derived from acceptance: premises = parses, accepted, closed,
                                  core_src_b on the SOURCE program (C04_prints_admitted_polarized_core: both polarized modes)
+     C04_prints_admitted_drop    WEAKENING: the same for programs with `drop` (no split, one provider name per process),
+                                 Async mode, into Sax.v with its structural rules s_drop / s_gc (C04_refines_sax_drop)
    What rests on the correspondence only: that the real interpreter's prints and their order are the
    model's (suite `run`); results for programs with drop / split / multi-provider declarations; results in
    the non-polarized mode; uniqueness of the multiset. *)
@@ -35,8 +37,8 @@ From stdpp Require Import gmap strings.
 Require Import Grits.Base Grits.Forms Grits.STypes Grits.Runtime.
 Require Import Grits.spec.Sax Grits.proofs.Causality Grits.proofs.SaxRefine Grits.proofs.SaxInv Grits.proofs.C04Examples.
 Require Import Grits.Expand Grits.TcTop Grits.spec.RtTyping Grits.spec.Topo Grits.proofs.RtTheorems Grits.proofs.RtTcSyn
-               Grits.proofs.TopoLin Grits.proofs.TopoStep Grits.proofs.TopoReach Grits.proofs.AsyncSync Grits.proofs.SaxTyped
-               Grits.proofs.InitAccept Grits.proofs.SaxAccept.
+               Grits.proofs.TopoLin Grits.proofs.TopoStep Grits.proofs.TopoReach Grits.proofs.AsyncSync Grits.proofs.SaxTyped Grits.proofs.DeterminismAll
+               Grits.proofs.InitAccept Grits.proofs.SaxAccept Grits.proofs.InvAll Grits.proofs.SaxDrop.
 
 Theorem C04_trace_causal : forall md (p : program) fuel pick r tr,
   exec_trace fuel pick md (p_types p) (p_funs p) (init_config p) [] = (r, tr) ->
@@ -152,6 +154,47 @@ Theorem C04_prints_admitted_core_text : forall txt, c04_core_text txt = true ->
       (labels (res_config (exec_run fuel pick md (p_types p') (p_funs p') (init_config p')))) C'.
 Proof. exact prints_admitted_core_text. Qed.
 
+(* ------------------------------------------------------------------ WEAKENING (proofs/SaxDrop.v): programs with `drop`
+   (no split, one provider name per process), Async mode, as a weak simulation into spec/Sax.v WITH
+   its structural rules: `drop x; k` is s_drop (the droppable forward the interpreter spawns is the
+   pending request drop(x)); posting the GC request is no step; a droppable forward that receives a
+   positive message, and a process that receives the GC request on its own channel, are s_gc — the
+   request is passed on to every channel the dropped object uses.  Side conditions from a8's InvX. *)
+Theorem C04_refines_sax_drop : forall D F teq, teq_laws D teq -> funs_typed D F teq ->
+  forall c self c', InvX D F teq c -> DropCfg c -> step Async D F c (Run self) = SStep c' ->
+  exists ls, ((ls = [] /\ α c ≡ₚ α c') \/ sax_step F true (α c) ls (α c')) /\ labels c' = labels c ++ ls.
+Proof. exact refines_drop_step. Qed.
+
+Theorem C04_dropcfg_step : forall D F c self c',
+  nosplit_funs F -> Topo c -> DropCfg c -> step Async D F c (Run self) = SStep c' -> DropCfg c'.
+Proof. exact dropcfg_step. Qed.
+
+Theorem C04_prints_admitted_drop : forall txt p p',
+  parse_string txt = POk p -> typecheck p = Accept p' -> in_fragment p' -> nosplit_program p' = true ->
+  forall fuel pick, exists C',
+    sax_steps (p_funs p') true (sax_init p')
+      (labels (res_config (exec_run fuel pick Async (p_types p') (p_funs p') (init_config p')))) C'.
+Proof. exact prints_admitted_drop. Qed.
+
+Theorem C04_prints_admitted_drop_polarized : forall md txt p p',
+  is_np md = false ->
+  parse_string txt = POk p -> typecheck p = Accept p' -> in_fragment p' -> nosplit_program p' = true ->
+  forall fuel pick, exists C',
+    sax_steps (p_funs p') true (sax_init p')
+      (labels (res_config (exec_run fuel pick md (p_types p') (p_funs p') (init_config p')))) C'.
+Proof. exact prints_admitted_drop_md. Qed.
+
+Theorem C04_prints_admitted_drop_text : forall txt, c04_drop_text txt = true ->
+  exists p p', parse_string txt = POk p /\ typecheck p = Accept p' /\
+  forall fuel pick, exists C',
+    sax_steps (p_funs p') true (sax_init p')
+      (labels (res_config (exec_run fuel pick Async (p_types p') (p_funs p') (init_config p')))) C'.
+Proof. exact prints_admitted_drop_text. Qed.
+
+Example C04_ex_drop :
+  c04_drop_text RtTheorems.example_drop_text = true /\ c04_drop_text DeterminismAll.example_drop_text = true.
+Proof. vm_compute. split; reflexivity. Qed.
+
 Theorem C04_tres_from_typing : forall D F teq, teq_laws D teq -> funs_typed D F teq ->
   forall Δ c, cfg_typed D F teq Δ c -> Topo c -> tres D c.
 Proof. exact tres_typed_topo. Qed.
@@ -247,6 +290,12 @@ Print Assumptions C04_prints_admitted_core.
 Print Assumptions C04_prints_admitted_polarized_core.
 Print Assumptions C04_prints_admitted_core_text.
 Print Assumptions C04_ex_core.
+Print Assumptions C04_refines_sax_drop.
+Print Assumptions C04_dropcfg_step.
+Print Assumptions C04_prints_admitted_drop.
+Print Assumptions C04_prints_admitted_drop_polarized.
+Print Assumptions C04_prints_admitted_drop_text.
+Print Assumptions C04_ex_drop.
 Print Assumptions C04_tres_from_typing.
 Print Assumptions C04_core_invariant_gives_Inv.
 Print Assumptions C04_refines_sax_core.
